@@ -308,3 +308,24 @@ Section Round06.
       exists i. split; [eauto|]. right. exists d. split; [exact Hd|]. eapply lookup_weaken; [exact HP|exact Hup].
   Qed.
 End Round06.
+
+(* ================= C14 on the wire: the bytes a correct node sends pass every correct node's ValidateObservation ================= *)
+Theorem correct_bytes_validate codec_ok cf seq prev_bytes (i : obs_inp) rms ups vals ro :
+  bok prev_bytes -> inputs_wf (oi_now i) (oi_expected i) (oi_vals i) ->
+  (forall s v, oi_vals i !! s = Some v -> match v with STsv _ (SDec _) => True | STsv _ _ => False | _ => True end) ->
+  observe codec_ok cf seq prev_bytes i = Ok (Some ro) ->
+  Permutation rms (ro_removes ro) -> Permutation ups (map_to_list (ro_updates ro)) ->
+  Permutation vals (map_to_list (ro_values ro)) -> small (encode_observation rms ups vals ro) ->
+  plugin_validate codec_ok (c_has_pred cf) seq (encode_observation rms ups vals ro) = Ok tt.
+Proof.
+  intros Hb Hin Htsv Ho Prm Pup Pval Hsm. unfold observe in Ho.
+  destruct (plugin_observation_wf _ _ _ _ _ _ _ _ _ _ _ Ho Hb Hin) as (Hwf & Hnd & _ & _).
+  pose proof (plugin_observation_validates _ _ _ _ _ _ _ _ _ _ _ Ho Htsv) as Hval.
+  assert (Hseq : (seq <? 1) = false /\ (seq =? 1) = false).
+  { unfold plugin_observation in Ho. destruct (seq <? 1); [discriminate|]. destruct (seq =? 1); [discriminate|]. split; reflexivity. }
+  unfold plugin_validate. destruct Hseq as [-> ->]. cbn [andb].
+  rewrite (observation_roundtrip rms ups vals ro Hwf Prm Pup Pval Hsm).
+  rewrite has_dup_NoDup by (apply (Permutation.Permutation_NoDup (Permutation.Permutation_sym Prm)), Hnd).
+  unfold validate_observation in *. cbn [ro_att ro_removes ro_updates ro_values].
+  rewrite (Permutation.Permutation_length Prm). rewrite Hval. reflexivity.
+Qed.
